@@ -37,6 +37,7 @@ mod prov;
 mod sim;
 mod world;
 mod blocksim;
+mod c10;
 mod c14;
 mod checks;
 mod driversim;
